@@ -167,6 +167,27 @@ def c19(tier, seed):
                 exp_groups.append([x])
         if all(not isinstance(x, str) for x in a) or all(isinstance(x, str) for x in a):
             R.expect("bounded:grouped", f"List->grouped({la})", lambda r: same(r, exp_groups), "adjacent equal elements grouped")
+        if len(a) <= 4:
+            # the same with NULL among the elements and with a key function whose result may be NULL
+            for nulled in ({x: None for x in a[:1]}, {x: None for x in a[1:2]}, {x: None for x in a[-1:]}):
+                an = [nulled.get(x, x) for x in a]
+                if not (all(not isinstance(x, str) for x in an if x is not None) or all(isinstance(x, str) for x in an if x is not None)):
+                    continue
+                eg = []
+                for x in an:
+                    if eg and eg[-1][-1] == x:
+                        eg[-1].append(x)
+                    else:
+                        eg.append([x])
+                R.expect("bounded:grouped", f"List->grouped({lit(an)})", lambda r, eg=eg: same(r, eg), "adjacent equal elements grouped (NULL is an element like any other)")
+                recs = [[x, i] for i, x in enumerate(an)]
+                egk = []
+                for rec in recs:
+                    if egk and egk[-1][-1][0] == rec[0]:
+                        egk[-1].append(rec)
+                    else:
+                        egk.append([rec])
+                R.expect("bounded:grouped", f"List->grouped({lit(recs)}, key = fn(r) r[0])", lambda r, egk=egk: same(r, egk), "adjacent records with equal keys grouped")
         for cs in (1, 2, 3):
             R.expect("bounded:chunks", f"chunks({la}, {cs})",
                      lambda r: same(r, [a[i:i + cs] for i in range(0, len(a), cs)] or [[]]), "chunks of the stated size")
